@@ -247,7 +247,7 @@ class RBFInterpolator(NNBase):
             #                             (216. * T * T) + (120. * T * T * T) +
             #                             (25. * T * T * T * T)))
         elif self.rbf_family == -3:
-            frnt = T / np.sqrt((T * T) * 1.)
+            frnt = T / np.sqrt((T * T) + 1.)
             dRp_poly = [1.]
         else:
             dims = self._indep_dims + 1
